@@ -297,11 +297,12 @@ type World struct {
 	Specs map[string]*ClientSpec
 	Key   interface{}
 
-	HMAC   *oauth2.HMACSHAStrategy
-	Dev    *rfc8628.DefaultDeviceStrategy
-	Core   oauth2.CoreStrategy
-	opMu   sync.Mutex
-	opNext int
+	HMAC    *oauth2.HMACSHAStrategy
+	Dev     *rfc8628.DefaultDeviceStrategy
+	Core    oauth2.CoreStrategy
+	opMu    sync.Mutex
+	opNext  int
+	cancels map[int]context.CancelFunc
 	// HTTPDoer answers request_uri / jwks_uri fetches (no network).
 	Fetch func(url string) (int, string)
 	// FetchErr, if set and returning an error, makes the outgoing fetch fail at the transport (no HTTP response at all).
@@ -346,7 +347,7 @@ func (s stubRT) RoundTrip(r *http.Request) (*http.Response, error) {
 func New(o Opts) *World {
 	ResetClock()
 	k := GetKeys()
-	w := &World{Opts: o, Specs: map[string]*ClientSpec{}}
+	w := &World{Opts: o, Specs: map[string]*ClientSpec{}, cancels: map[int]context.CancelFunc{}}
 	cfg := &fosite.Config{
 		GlobalSecret:          append([]byte(nil), GlobalSecret...),
 		TokenURL:              TokenURL,
